@@ -311,11 +311,19 @@ func listOf(v *Term) ([]*Term, bool) {
 		if v.Args[1] == nil && v.Args[2] == nil {
 			return listOf(v.Args[0])
 		}
+		if v.Args[2] != nil && v.Args[2].IsConst() && v.Args[2].Name == "0" {
+			return nil, true // x[:0]: empty (make([]T, 0, constCap) is new([cap]T)[:0] in go/ssa)
+		}
 		return nil, false
 	case "convert":
 		return listOf(v.Args[0])
 	case "zero":
 		return nil, true
+	case "make":
+		if v.Name == "slice" && len(v.Args) > 0 && v.Args[0].IsConst() && v.Args[0].Name == "0" {
+			return nil, true // make([]T, 0, cap): empty
+		}
+		return nil, false
 	case "updidx":
 		m := map[int]*Term{}
 		max := -1
